@@ -313,7 +313,10 @@ def h5(ctx, rid):
 
     def is_mut_ext(e):
         b = prims.base(e)
-        return b in prims.RAW_MUTATORS or b in ('tokio::fs::create_dir', 'tokio::fs::create_dir_all', 'std::fs::create_dir', 'std::fs::create_dir_all')
+        if b in prims.RAW_MUTATORS or b in ('tokio::fs::create_dir', 'tokio::fs::create_dir_all', 'std::fs::create_dir', 'std::fs::create_dir_all'):
+            return True
+        # a request to the maintenance worker is a deferred mutation: its handlers create, close and dump files
+        return e.startswith('tokio::sync::mpsc::Sender') and e.split('::')[-1] in ('send', 'try_send', 'send_timeout', 'blocking_send', 'reserve', 'try_reserve')
 
     for q in QUERY_ENTRIES:
         if q not in prog.fns:
@@ -322,7 +325,7 @@ def h5(ctx, rid):
         hit_e = [x for x in E.get(q, ()) if is_mut_ext(x)]
         if hit_l or hit_e:
             p = prog.call_path(q, (lambda x: x in bad_local) if hit_l else None, is_mut_ext if hit_e else None)
-            ctx.bad(rid, 'query|' + q, prog.fns[q].where(), 'a query entry point can reach a file mutator', witness=p)
+            ctx.bad(rid, 'query|' + q, prog.fns[q].where(), 'a query entry point can reach a file mutator (or a request to the maintenance worker, whose handlers create / close / dump files)', witness=p)
         else:
             ctx.ok(rid, 'query|' + q, prog.fns[q].where(), 'no mutator in the call-graph closure (%d functions)' % len(L.get(q, ())))
 
